@@ -47,5 +47,14 @@ def step (u : Unit) (line : String) : Unit × String :=
       | some none => (u, "cycle")
       | none => (u, "err fuel")
     | _, _ => (u, "bad-op")
+  | ["kcls", args, ret] =>
+    let pr (w : String) : Option (Nat × Bool) := match w.splitOn ":" with
+      | [c, a] => c.toNat?.map fun c => (c, a == "1")
+      | _ => none
+    match (if args == "-" then some [] else (args.splitOn ",").mapM pr), (if ret == "-" then some none else (pr ret).map some) with
+    | some as, some rt =>
+      let l := (kernelClasses as rt).mergeSort.eraseDups
+      (u, "classes " ++ showL l)
+    | _, _ => (u, "bad-op")
   | _ => (u, "bad-op")
 end Drv.TopoD
